@@ -450,3 +450,45 @@ def mon_adapter_notifications(scn, run):
 
 
 ALL_SIM_MONITORS["adapters"] = mon_adapter_notifications
+
+
+# ------------------------------------------------------------------ tick provenance (C06)
+def mon_tick_provenance(scn, run):
+    """C06 'never invented / not served again': every master tick after the initial one must be
+    asked for by each of its (top-level device) roots: the root's latest answer requested a
+    callback at exactly this time, or the root raised an interrupt that has not been served by
+    a tick rooted at it since.  (System-component roots are justified by the minimum of their
+    inner wakeups, which is checked on the model side.)"""
+    out = []
+    tr = run["trace"]
+    tid = master_tid(run)
+    top_devs = {c["name"] for c in scn["components"] if c["kind"] == "dev"}
+    calls = [e for e in tr.of("t-call") if e["tid"] == tid]
+    ups = tr.of("update")
+    raises = [e for e in tr.of("raise") if e.get("ok")]
+    last_root_service = {}
+    for i, call in enumerate(calls):
+        if i == 0:
+            for r in call["roots"]:
+                last_root_service[r] = call["n"]
+            continue
+        for r in call["roots"]:
+            if r not in top_devs:
+                continue
+            since = last_root_service.get(r, 0)
+            # the pending request of r: the last non-None call_at it returned since it was last served
+            # as a root (an answer without call_at does not cancel an earlier request)
+            pend = None
+            for u in ups:
+                if u["comp"] == r and since <= u["n"] < call["n"] and u.get("call_at") is not None:
+                    pend = u["call_at"]
+            asked = pend == call["time"]
+            owed = any(x["comp"] == r and x["n"] > since and x["n"] < call["n"] for x in raises)
+            if not asked and not owed:
+                out.append(V("tick-not-requested", f"master tick @{call['time']} is rooted at {r}, whose pending callback request is {pend} and which has no unserved interrupt",
+                             comp=r))
+            last_root_service[r] = call["n"]
+    return out
+
+
+ALL_SIM_MONITORS["tick_provenance"] = mon_tick_provenance
